@@ -408,7 +408,7 @@ def _specs() -> list[Spec]:
         Spec("Min", M.Min, [{}], g_values, cat={0: 0}, kind="minmax", model=None, family="agg"),
         Spec("Cat", M.Cat, [{}, {"dim": 1}], g_cat, kind="ordered", cat=None, family="agg"),
         Spec("AUC", M.AUC, [{}, {"n_tasks": 2}, {"reorder": False}], g_auc, cat={0: -1, 1: -1}, functional=lambda cfg, b: F.auc(*b.args, reorder=cfg.get("reorder", True)), family="agg"),
-        Spec("Covariance", M.Covariance, [{}], g_cov, cat={0: 0}, family="agg", min_samples=2, sizes=(2, 3, 5)),
+        Spec("Covariance", M.Covariance, [{}], g_cov, cat={0: 0}, family="agg", min_samples=2, sizes=(1, 2, 3, 5)),
         Spec("Throughput", M.Throughput, [{}], g_throughput, kind="throughput", cat=None, model=None, family="agg"),
     ]
     # --- regression
@@ -416,7 +416,7 @@ def _specs() -> list[Spec]:
         Spec("MeanSquaredError", M.MeanSquaredError, [{}, {"multioutput": "raw_values", "_d": 2}, {"_d": 2}], g_mse, cat={0: 0, 1: 0, "sample_weight": 0},
              functional=_f(F.mean_squared_error, "multioutput"), model=None, family="reg", count_states=("sum_weight",)),
         Spec("R2Score", M.R2Score, [{}, {"multioutput": "raw_values", "_d": 2}, {"multioutput": "variance_weighted", "_d": 2}, {"num_regressors": 1}], g_regression, cat=c01,
-             functional=_f(F.r2_score, "multioutput", "num_regressors"), family="reg", min_samples=3, sizes=(3, 4, 7), tol=1e-4, count_states=("num_obs",)),
+             functional=_f(F.r2_score, "multioutput", "num_regressors"), family="reg", min_samples=3, sizes=(1, 2, 3, 4, 7), tol=1e-4, count_states=("num_obs",)),
     ]
     # --- ranking
     S += [
